@@ -300,3 +300,46 @@ def set_boundary_cases() -> List[List[Value]]:
               "[\\]-~]", "[\\]-~a]", "[a\\]-~]", "[!-\\]]", "[\\[-\\]]", "[\\\\-\\]]", "[\\t-\\r]"]:
         out.append([p])
     return out
+
+
+QUANT_BOUNDS = ["", "0", "1", "2", "3", "10"]
+
+
+def quantifier_boundary_cases(full: bool = False) -> List[List[Value]]:
+    """Deterministic family of counted quantifiers: ``{m}`` and ``{m,n}`` with m, n in
+    QUANT_BOUNDS (so: empty bounds, zero bounds, reversed bounds, equal bounds), blanks in
+    every placement (after ``{``, after m, after the comma, after n), with and without the
+    non-greedy mark, after a character, a group and a character set.
+
+    ``full=False`` keeps, for the group and the set, only the placements without blanks and
+    with blanks everywhere, and for the character the placements with at most one blank or
+    blanks everywhere."""
+    bodies = [(m, None) for m in QUANT_BOUNDS] + [(m, n) for m in QUANT_BOUNDS for n in QUANT_BOUNDS]
+    placements = list(itertools.product(["", " "], repeat=4))
+    few = [pl for pl in placements if sum(1 for x in pl if x) <= 1 or all(pl)]
+    ends = [pl for pl in placements if not any(pl) or all(pl)]
+    out: List[List[Value]] = []
+    for atom in ["a", "(ab)", "[a-z]"]:
+        pls = placements if full else (few if atom == "a" else ends)
+        for m, n in bodies:
+            for b0, b1, b2, b3 in pls:
+                if n is None:
+                    if b2:
+                        continue
+                    body = "{" + b0 + m + b1 + "}" if not b3 else "{" + b0 + m + b1 + b3 + "}"
+                else:
+                    body = "{" + b0 + m + b1 + "," + b2 + n + b3 + "}"
+                for sfx in ("", "?"):
+                    out.append([atom + body + sfx])
+                    if full or not any((b0, b1, b2, b3)):
+                        out.append(["x" + atom + body + sfx + "y"])
+    # tabs as blanks, and the witnesses of the seeded change
+    out += [["a{3,0}"], ["(ab){ 1 , 0 }?"], ["[a-z]{2,0}"], ["a{\t3\t,\t0\t}"], ["a{10,3}"], ["a{3,10}"],
+            ["a{1,0}b{0,1}"], ["a{0}"], ["a{0,0}"], ["a{,0}"], ["a{00,0}"], ["a{01,00}"]]
+    seen = set()
+    uniq = []
+    for v in out:
+        if v[0] not in seen:
+            seen.add(v[0])
+            uniq.append(v)
+    return uniq
